@@ -8,7 +8,7 @@ LEVEL = "model_checking"
 
 
 def run(ctx):
-    n = 5000 if ctx.tier == "thorough" else 1200
+    n = 20000 if ctx.tier == "thorough" else 1200
     cases, res = rel.run_family(ctx, "join", n, "C02", "join")
     rel.judge(ctx, cases, res, "C02", "join", modes=("o", "n"))
     import props.joins as joins
